@@ -409,6 +409,25 @@ pub fn decide(term: String) -> bool {
     })
 }
 
+/// Smallest value the 8-bit term can take under the current path condition (binary search
+/// with feasibility queries; deterministic, records nothing on the trail).
+pub fn min_value(term: &str) -> u8 {
+    ENGINE.with(|e| {
+        let mut g = e.borrow_mut();
+        let eng = g.as_mut().expect("symbolic operation outside an engine session");
+        let (mut lo, mut hi) = (0u16, 255u16);
+        while lo < hi {
+            let mid = (lo + hi) / 2;
+            if eng.feasible(&format!("(bvule {} #x{:02x})", term, mid), true) {
+                hi = mid;
+            } else {
+                lo = mid + 1;
+            }
+        }
+        lo as u8
+    })
+}
+
 /// Char boundary test on a symbolic text (forced by the layout constraints).
 pub fn is_boundary(s: &SymStr, ix: usize) -> bool {
     let raw = s.raw();
